@@ -6,6 +6,8 @@
    certificate lists over the 17 enum variants = 19 CDDL kinds, with arbitrary amounts (also
    amounts >= 2^64: no range premise is needed), withdrawal lists, proposal lists, parameters. *)
 From CSL Require Import Base.Prelude Base.U64 Deposits.Deposits Deposits.DepositsProofs.
+From CSL Require Import Deposits.Ident Deposits.IdentProofs Deposits.LedgerState Deposits.LedgerStateProofs Deposits.TotalsBridge.
+From CSL Require Num.Value Builder.Totals Builder.TotalsProofs.
 From Coq Require Import Permutation.
 Local Open Scope N_scope.
 
@@ -194,3 +196,159 @@ Check (eq_refl : map (fun c => (ledger_deposit 100 10 c, ledger_refund 10 c))
    StakeVoteRegistrationAndDelegation 9; CommitteeHotAuth; CommitteeColdResign; DRepRegistration 9;
    DRepDeregistration 9; DRepUpdate]
   = [(10,0);(0,10);(0,0);(100,0);(0,0);(0,0);(0,0);(9,0);(0,9);(0,0);(0,0);(9,0);(9,0);(9,0);(0,0);(0,0);(9,0);(0,9);(0,0)]).
+
+(* =============================================================================================
+   Items that share a field.  Ident.v gives every certificate / withdrawal / proposal the identities
+   the deposit code never looks at (credential, pool operator, everything else) and models the set
+   and map types that hold them.  The figures of the theorems above are those of the MERGED items. *)
+
+(* Certificates / CertificatesBuilder and VotingProposals / VotingProposalBuilder hold exactly the
+   distinct items: no Rust value twice, every added value present, nothing invented, and a sequence
+   without equal values is kept as it is *)
+Theorem C20_collections_hold_distinct_items : forall (cs : list icert) (ps : list iprop),
+  (NoDup (map cert_key (eff_certs cs))
+   /\ (forall x, In x cs -> In (cert_key x) (map cert_key (eff_certs cs)))
+   /\ (forall y, In y (eff_certs cs) -> In y cs)
+   /\ (NoDup (map cert_key cs) -> eff_certs cs = cs))
+  /\
+  (NoDup (map prop_key (eff_props ps))
+   /\ (forall x, In x ps -> In (prop_key x) (map prop_key (eff_props ps)))
+   /\ (forall y, In y (eff_props ps) -> In y ps)
+   /\ (NoDup (map prop_key ps) -> eff_props ps = ps)).
+Proof. intros cs ps. split; [exact (eff_certs_spec cs) | exact (eff_props_spec ps)]. Qed.
+Print Assumptions C20_collections_hold_distinct_items.
+
+(* Withdrawals / WithdrawalsBuilder hold one amount per reward account: the LAST one given *)
+Theorem C20_withdrawals_last_amount_wins : forall (ws : list iwd),
+  NoDup (map wd_key (eff_wdrl ws))
+  /\ (forall l1 x l2, ws = l1 ++ x :: l2 -> (forall y, In y l2 -> wd_key y <> wd_key x) -> In x (eff_wdrl ws))
+  /\ (forall y, In y (eff_wdrl ws) -> In y ws)
+  /\ (NoDup (map wd_key ws) -> eff_wdrl ws = ws).
+Proof. exact eff_wdrl_spec. Qed.
+Print Assumptions C20_withdrawals_last_amount_wins.
+
+(* sharing a field does not merge: two registrations of ONE operator that differ elsewhere are two
+   certificates and the builder charges two pool deposits (the helper likewise, C20_helper_equals_builder);
+   a certificate equal in every field to an earlier one is held once; a second amount replaces the first *)
+Theorem C20_shared_fields_do_not_merge :
+  (forall p q cred op v1 v2 s, v1 <> v2 ->
+     get_certificates_deposit
+       (map ic_cert (eff_certs [mk_icert PoolRegistration s (mk_ident cred op v1); mk_icert PoolRegistration s (mk_ident cred op v2)])) p q
+     = exact_or_error (p + p))
+  /\ (forall x, map ic_cert (eff_certs [x; x]) = [ic_cert x])
+  /\ (forall s a c1 c2, map plain_wd (eff_wdrl [mk_iwd s a c1; mk_iwd s a c2]) = [(s, c2)]).
+Proof.
+  split; [exact same_operator_charged_twice |]. split; [exact equal_certificate_charged_once | exact withdrawal_replaced].
+Qed.
+Print Assumptions C20_shared_fields_do_not_merge.
+
+(* the extracted judge of the correspondence run (sizes of the six collections + the judge above on
+   the merged items) accepts the model's own observation, for every identified case *)
+Theorem C20_identified_judge_accepts_model : forall ik : icase, ijudge ik (imodel_obs ik) = Holds.
+Proof. exact ijudge_model_holds. Qed.
+Print Assumptions C20_identified_judge_accepts_model.
+
+(* case lines without identities (item i gets identity i everywhere) denote the plain case they denoted before *)
+Theorem C20_positional_cases_unchanged : forall k : case, effective (positional k) = k.
+Proof. exact effective_positional. Qed.
+Print Assumptions C20_positional_cases_unchanged.
+
+(* =============================================================================================
+   The ledger's STATEFUL accounting (LedgerState.v: Conway totalTxDeposits / totalRefunds over the
+   certificate sequence and the registered pools / credentials / DReps) equals the per-certificate
+   table of the helpers and the builder, with the two conventions of the property as explicit
+   premises: the sequence passes the ledger's own deposit checks in state [ls] (explicit deposits =
+   parameters, explicit refunds = recorded deposits, register only the unregistered, deregister only
+   the registered), pool registrations are first registrations (operator neither registered nor
+   repeated), credentials deregistered by the legacy certificate were registered at key_deposit. *)
+Theorem C20_ledger_state_rule : forall (pp : pparams) (ls : lstate) (cs : list icert),
+  certs_valid pp (ls_stake ls) (ls_drep ls) cs = true ->
+  pools_fresh (ls_pool ls) [] cs = true ->
+  legacy_at_key_deposit pp ls cs ->
+  state_total_deposits_certs pp ls cs = spec_cert_deposits (pp_pool_deposit pp) (pp_key_deposit pp) (map ic_cert cs) /\
+  state_total_refunds_certs pp ls cs = spec_cert_refunds (pp_key_deposit pp) (map ic_cert cs).
+Proof. exact state_rule_agrees. Qed.
+Print Assumptions C20_ledger_state_rule.
+
+Theorem C20_helpers_equal_ledger_state_rule :
+  forall pp ls (cs : list icert) (ws ps : option (list N)) (ins outs : list N) (don : option N),
+  certs_valid pp (ls_stake ls) (ls_drep ls) cs = true ->
+  pools_fresh (ls_pool ls) [] cs = true ->
+  legacy_at_key_deposit pp ls cs ->
+  let b := mk_body (Some (map ic_cert cs)) ws ps in
+  let t := builder_of_body b ins outs don (pp_pool_deposit pp) (pp_key_deposit pp) in
+  let dep := exact_or_error (state_total_deposits_certs pp ls cs + sumN (opt_list ps)) in
+  let imp := exact_or_error (sumN (opt_list ws) + state_total_refunds_certs pp ls cs) in
+  get_deposit b (pp_pool_deposit pp) (pp_key_deposit pp) = dep /\ tb_get_deposit t = dep /\
+  get_implicit_input b (pp_pool_deposit pp) (pp_key_deposit pp) = imp /\ tb_get_implicit_input t = imp.
+Proof. exact helpers_equal_state_rule. Qed.
+Print Assumptions C20_helpers_equal_ledger_state_rule.
+
+Example C20_ledger_state_premises_satisfiable :
+  certs_valid ex_pp (ls_stake ex_ls) (ls_drep ex_ls) ex_certs = true /\
+  pools_fresh (ls_pool ex_ls) [] ex_certs = true /\
+  legacy_at_key_deposit ex_pp ex_ls ex_certs /\
+  state_total_deposits_certs ex_pp ex_ls ex_certs = 1510000000 /\
+  state_total_refunds_certs ex_pp ex_ls ex_certs = 908000000.
+Proof. exact state_rule_premises_satisfiable. Qed.
+
+(* each convention is needed: without it the ledger's figure and the library's differ (closed witnesses):
+   one new operator registered twice in a transaction (ledger: one deposit), a re-registration
+   (ledger: none), a legacy deregistration of a credential registered at another key_deposit *)
+Theorem C20_ledger_state_premises_needed :
+  (state_total_deposits_certs ex_pp ex_ls_empty [reg_pool 7 1; reg_pool 7 2] = 500000000 /\
+   spec_cert_deposits 500000000 2000000 (map ic_cert [reg_pool 7 1; reg_pool 7 2]) = 1000000000 /\
+   pools_fresh (ls_pool ex_ls_empty) [] [reg_pool 7 1; reg_pool 7 2] = false)
+  /\
+  (let ls := mk_ls (fun _ => None) (fun _ => None) (fun op => op =? 7) in
+   state_total_deposits_certs ex_pp ls [reg_pool 7 1] = 0 /\
+   spec_cert_deposits 500000000 2000000 (map ic_cert [reg_pool 7 1]) = 500000000 /\
+   pools_fresh (ls_pool ls) [] [reg_pool 7 1] = false)
+  /\
+  (let ls := mk_ls (fun c => if cred_eqb c (false, 5) then Some 1000000 else None) (fun _ => None) (fun _ => false) in
+   let cs := [mk_icert (StakeDeregistration None) false (mk_ident 5 0 0)] in
+   certs_valid ex_pp (ls_stake ls) (ls_drep ls) cs = true /\
+   state_total_refunds_certs ex_pp ls cs = 1000000 /\
+   spec_cert_refunds 2000000 (map ic_cert cs) = 2000000).
+Proof.
+  split; [exact same_pool_twice_differs |]. split; [exact reregistration_differs | exact legacy_old_deposit_differs].
+Qed.
+Print Assumptions C20_ledger_state_premises_needed.
+
+(* =============================================================================================
+   Bridge to C05 (Builder/Totals.v: totals over multi-asset values with mint and burn): the two
+   models of TransactionBuilder::{get_deposit, get_implicit_input, get_total_input, get_total_output}
+   agree on lovelace, so they cannot drift apart. *)
+Theorem C20_totals_bridge_deposit_implicit : forall s : Totals.state,
+  Totals.get_deposit s = tb_get_deposit (txb_of_state s) /\
+  Totals.get_implicit_input s = lift (tb_get_implicit_input (txb_of_state s)).
+Proof. intros s. split; [apply bridge_deposit | apply bridge_implicit_input]. Qed.
+Print Assumptions C20_totals_bridge_deposit_implicit.
+
+(* ADA-only builders (the domain of the C20 model): the C05 totals ARE the C20 totals *)
+Theorem C20_totals_bridge_ada_only : forall s : Totals.state, ada_only s = true ->
+  Totals.get_total_input s = lift (tb_get_total_input (txb_of_state s)) /\
+  Totals.get_total_output s = lift (tb_get_total_output (txb_of_state s)).
+Proof. intros s H. split; [apply bridge_total_input_ada | apply bridge_total_output_ada]; exact H. Qed.
+Print Assumptions C20_totals_bridge_ada_only.
+
+(* every well-formed builder state (multi-asset inputs / outputs, mint, burn): the lovelace of a C05
+   total is the C20 total, and a C20 overflow is never a C05 value *)
+Theorem C20_totals_bridge_lovelace : forall s : Totals.state, Totals.state_wf s ->
+  (forall ti, Totals.get_total_input s = Ok ti -> tb_get_total_input (txb_of_state s) = Ok (Value.coin ti)) /\
+  (forall to, Totals.get_total_output s = Ok to -> tb_get_total_output (txb_of_state s) = Ok (Value.coin to)) /\
+  (tb_get_total_input (txb_of_state s) = Err -> forall ti, Totals.get_total_input s <> Ok ti) /\
+  (tb_get_total_output (txb_of_state s) = Err -> forall to, Totals.get_total_output s <> Ok to).
+Proof.
+  intros s W. split; [intros ti H; exact (bridge_total_input s ti W H) |].
+  split; [intros to H; exact (bridge_total_output s to W H) |]. exact (bridge_overflow s W).
+Qed.
+Print Assumptions C20_totals_bridge_lovelace.
+
+Example C20_totals_bridge_premises_satisfiable :
+  Totals.state_wf ex_state /\ ada_only ex_state = false /\
+  (exists ti, Totals.get_total_input ex_state = Ok ti /\ Value.coin ti = 15003000) /\
+  (exists to, Totals.get_total_output ex_state = Ok to /\ Value.coin to = 502100005) /\
+  tb_get_total_input (txb_of_state ex_state) = Ok 15003000 /\
+  tb_get_total_output (txb_of_state ex_state) = Ok 502100005.
+Proof. exact bridge_premises_satisfiable. Qed.
